@@ -113,6 +113,12 @@ class Gen:
         cur = inner_name
         insts = ["s", "w", "v"]
         levels = ["w", "v", "m"]
+        # an instance name that repeats on a path, with a sibling of the repeated part:  M: V v;  V: W v; S s;  W: S s
+        # (flat variables v.v.s.x and v.s.x: a reference v.s.r that is prefixed twice lands on the existing v.v.s.r)
+        repeat = depth == 3 and r.random() < 0.4
+        if repeat:
+            insts = ["s", "v", "v"]
+            self.tags.add("names:instance-name-repeated-on-path")
         for d in range(depth):
             inst = insts[d]
             lp = pname(levels[d])
@@ -121,11 +127,13 @@ class Gen:
             cname = "M" if d == depth - 1 else ("W" if d == 0 else "V")
             C = self.cls(cname, [self.comp(lp, "Real", prefixes=["parameter"], value=self.lit()),
                                  self.comp(inst, cur, mods)])
+            if repeat and d == 1:
+                C["comps"].append(self.comp("s", inner_name))
             lib["classes"].append(C)
             cur = cname
             self.tags.add("level:enclosing-component-%d" % (d + 1))
         self.top = cur
-        if r.random() < 0.25 and depth >= 1:
+        if r.random() < 0.25 and depth >= 1 and not repeat:
             # the modified classes live in a package; the first enclosing (wrapper) class has the same
             # short name as the library class it instantiates (Lib.S inside a top-level S)
             inner = [c for c in lib["classes"] if c["name"] in ("TK", "S", "E", "E2")]
